@@ -901,7 +901,7 @@ func TestVerifC01(t *testing.T) {
 	if h == nil {
 		t.Skip("VERIF_OUT not set")
 	}
-	n := h.N(160, 2500)
+	n := h.N(600, 12000)
 	for idx := 0; idx < n; idx++ {
 		r := h.Begin(idx)
 		if r == nil {
